@@ -37,6 +37,9 @@ struct Cfg {
     opts: TreeBuilderOpts,
     cs: Option<bool>,
     tx: bool,
+    /// `ln=1`: append `@L=` — whether the line the sink was last told (`set_current_line`) equals the
+    /// line of the token being processed at every other sink call
+    ln: bool,
 }
 
 fn parse_bool(s: &str) -> Option<bool> {
@@ -52,6 +55,7 @@ fn parse_opts(s: &str) -> Option<Cfg> {
         opts: TreeBuilderOpts::default(),
         cs: None,
         tx: false,
+        ln: false,
     };
     if s == "-" {
         return Some(c);
@@ -68,6 +72,7 @@ fn parse_opts(s: &str) -> Option<Cfg> {
             ["q", "q"] => c.opts.quirks_mode = QuirksMode::Quirks,
             ["cs", v] => c.cs = Some(parse_bool(v)?),
             ["tx", v] => c.tx = parse_bool(v)?,
+            ["ln", v] => c.ln = parse_bool(v)?,
             _ => return None,
         }
     }
@@ -512,6 +517,9 @@ struct Wrap {
     results: RefCell<Vec<String>>,
     n_eof: Cell<usize>,
     last_eof: Cell<bool>,
+    /// the line the sink believes it is on (last `set_current_line`, 1 before the first)
+    sink_line: Cell<u64>,
+    line_mismatch: RefCell<Option<String>>,
 }
 
 impl TokenSink for Wrap {
@@ -523,7 +531,24 @@ impl TokenSink for Wrap {
             self.n_eof.set(self.n_eof.get() + 1);
         }
         self.last_eof.set(is_eof);
+        let before = self.tb.sink.trace.borrow().len();
         let r = self.tb.process_token(token, line);
+        {
+            let trace = self.tb.sink.trace.borrow();
+            for op in trace[before..].iter() {
+                let name = op_name(op);
+                if name == "ln" {
+                    if let Some(v) = op.split(',').nth(1).and_then(|x| x.split(|c: char| !c.is_ascii_digit()).next()) {
+                        if let Ok(n) = v.parse::<u64>() {
+                            self.sink_line.set(n);
+                        }
+                    }
+                } else if self.sink_line.get() != line && self.line_mismatch.borrow().is_none() {
+                    *self.line_mismatch.borrow_mut() =
+                        Some(format!("token-line={} sink-line={} at-op={}", line, self.sink_line.get(), name));
+                }
+            }
+        }
         if let Some(s) = show_result(&r) {
             self.results.borrow_mut().push(s);
         }
@@ -556,6 +581,8 @@ fn run_txt(cfg: &Cfg, ctx: &Option<Ctx>, chunks: &[String]) -> String {
         results: RefCell::new(vec![]),
         n_eof: Cell::new(0),
         last_eof: Cell::new(false),
+        sink_line: Cell::new(1),
+        line_mismatch: RefCell::new(None),
     };
     let tok = Tokenizer::new(
         wrap,
@@ -578,12 +605,15 @@ fn run_txt(cfg: &Cfg, ctx: &Option<Ctx>, chunks: &[String]) -> String {
     assert!(input.is_empty(), "parser finished with remaining input");
     tok.end();
     let w = &tok.sink;
-    let mine = format!(
+    let mut mine = format!(
         "{}@K={},{}",
         render_common(&w.tb.sink, &w.results.borrow(), true),
         w.n_eof.get(),
         w.last_eof.get() as u8
     );
+    if cfg.ln {
+        mine.push_str(&format!("@L={}", w.line_mismatch.borrow().clone().unwrap_or("-".into())));
+    }
     // --- the same input through the real driver (no form pointer there)
     let form = ctx.as_ref().map(|c| c.form).unwrap_or(false);
     if !form {
